@@ -178,6 +178,20 @@ func checkWalk(ctx *core.Ctx, blocks []*cm.RootBlock, pol walkPolicy) bool {
 		for _, rb := range blocks {
 			roots = append(roots, rb.AsNode())
 		}
+		// walks that start at an inner node (a block or an inline with children): such a root
+		// has no parent and a negative index either, and what encloses it is unknown to Walk
+		var inner []cm.Node
+		for _, rb := range blocks {
+			core.WalkTree(rb.AsNode(), func(n, parent cm.Node, depth, _ int) {
+				if depth > 0 && n.ChildCount() > 0 {
+					inner = append(inner, n)
+				}
+			})
+		}
+		for k := 0; k < 2 && len(inner) > 0; k++ {
+			roots = append(roots, inner[int(core.Mix(pol.seed, 0x1ee7, uint64(k))%uint64(len(inner)))])
+			ctx.Inc("walks_started_at_an_inner_node")
+		}
 	}
 	for _, root := range roots {
 		// --- reference traversal
